@@ -279,8 +279,10 @@ def freshServer (u t : Nat) (s : SConfig) : Server :=
 theorem serversUpdate_nil_old (u t : Nat) (p : Bool) (l : List SConfig) :
     serversUpdate u t p [] l =
       (if p then ((dedupSConfig u t l []).map (freshServer u t)).take 1 else (dedupSConfig u t l []).map (freshServer u t)) := by
-  unfold serversUpdate freshServer
-  simp
+  unfold serversUpdate
+  have : updateOne u t [] = freshServer u t := by
+    funext s; simp [updateOne, freshServer]
+  rw [this]
 
 theorem v4_back (u t : Nat) (k : List SConfig) (hk : ∀ x ∈ k, ∃ o, x = v4Server o) :
     ((k.map (freshServer u t)).filterMap v4of).map v4Server = k := by
@@ -343,20 +345,15 @@ theorem serversUpdate_ne_nil (u t : Nat) (p : Bool) (old : List Server) (x : SCo
 theorem serversUpdate_v4_all (u t : Nat) (p : Bool) (l : List (List Nat)) :
     ∀ s ∈ serversUpdate u t p [] (l.map v4Server), ∃ o, s.addr = .v4 o := by
   intro s hs
-  unfold serversUpdate at hs
-  have hm : ∀ x ∈ ((dedupSConfig u t (l.map v4Server) []).map (fun s =>
-      match ([] : List Server).find? (fun o => o.addr == s.addr && o.tcp == effPort t s.tcp && o.udp == effPort u s.udp) with
-      | some o => if s.iface.isEmpty then o else { o with iface := s.iface, scope := s.scope }
-      | none => ({ addr := s.addr, udp := effPort u s.udp, tcp := effPort t s.tcp, iface := s.iface, scope := s.scope } : Server))),
-      ∃ o, x.addr = .v4 o := by
+  rw [serversUpdate_nil_old] at hs
+  have hm : ∀ x ∈ (dedupSConfig u t (l.map v4Server) []).map (freshServer u t), ∃ o, x.addr = .v4 o := by
     intro x hx
-    simp only [List.find?_nil, List.mem_map] at hx
+    simp only [List.mem_map] at hx
     obtain ⟨k, hk, rfl⟩ := hx
     have := dedup_mem' u t _ _ k hk
     simp only [List.mem_map] at this
     obtain ⟨o, _, rfl⟩ := this
     exact ⟨o, rfl⟩
-  simp only at hs
   split at hs
   · exact hm s (List.mem_of_mem_take hs)
   · exact hm s hs
